@@ -26,6 +26,7 @@ import (
 	"fmt"
 	"io"
 	"os"
+	"runtime/debug"
 	"strings"
 	"sync"
 	"sync/atomic"
@@ -322,7 +323,7 @@ func TestVerif_C07_codec(t *testing.T) {
 	defer r.Write()
 	maxLen := verifmc.Pick(2, 3)
 	fullLimit := verifmc.Pick(160, 1200)
-	r.Rule = fmt.Sprintf("round trip: every shape of {leaf,branch} x value {none,empty,1,32,33 inline,33 hashed,64,16384 bytes} x partial key length at every header boundary of the variant (0,1,2, max-1..max+1, max+254..max+256, max+509..max+511, last multiple, 65534, 65535 for max=63/31/15; plus 62..65,317..319,573) x 10 child configurations (inline leaf / hashed / inline branch, 1, 2 or 16 children) is encoded by the reference encoder, decoded with codec.Decode[H256] and compared field by field with its description; robustness: every byte string of length <= %d, for every valid encoding of <= %d bytes every single-byte substitution (255 values x every position), every truncation and 3 appended bytes, for longer encodings the same at every structural offset (header, key ends, bitmap, length prefixes, field starts), every valid encoding through a reader that splits at every offset (<= %d bytes) and a one-byte-per-Read reader. Non-trivial = the decoder returned a node or got past the header", maxLen, fullLimit, fullLimit)
+	r.Rule = fmt.Sprintf("round trip: every shape of {leaf,branch} x value {none,empty,1,32,33 inline,33 hashed,64,16384 bytes} x partial key length at every header boundary of the variant (0,1,2, max-1..max+1, max+254..max+256, max+509..max+511, last multiple, 65534, 65535 for max=63/31/15; plus 62..65,317..319,573) x 10 child configurations (inline leaf / hashed / inline branch, 1, 2 or 16 children) is encoded by the reference encoder, decoded with codec.Decode[H256] and compared field by field with its description; robustness: every byte string of length <= %d, for every valid encoding of <= %d bytes every single-byte substitution (255 values x every position), every truncation and 3 appended bytes, for longer encodings the same at every structural offset (header, key ends, bitmap, length prefixes, field starts), (inputs declaring a byte-string length above 16 MiB are executed serially for designated pk=1 shapes and counted as skipped for the others), every valid encoding through a reader that splits at every offset (<= %d bytes) and a one-byte-per-Read reader. Non-trivial = the decoder returned a node or got past the header", maxLen, fullLimit, fullLimit)
 	mon := c07NewMonitor(r, 60*time.Second)
 	defer close(mon.stop)
 
@@ -408,25 +409,46 @@ func TestVerif_C07_codec(t *testing.T) {
 	}, func(i int, msg string) { r.Violate("harness-panic", msg, i) })
 
 	// ---- (b2) deviation-1 neighbourhood of every valid encoding, (b3) unfriendly readers
+	//
+	// Inputs that declare a SCALE byte-string length above 16 MiB make the SCALE decoder allocate
+	// that much (up to 1 GiB for a 30-byte input - C12's subject, not a panic or a hang).  They are
+	// recognised by an independent structural walk (ref.C07MaxDeclaredLen), executed one at a time
+	// for the designated shapes and counted as skipped for the others.
+	const heavyFrom = 16 << 20
+	var heavyMu sync.Mutex
+	readerSem := make(chan struct{}, 2)
 	verifmc.ParallelFor(r, len(shapes), func(i int) {
-		enc := encs[i]
-		if enc == nil {
+		if encs[i] == nil {
 			return
 		}
 		sh := shapes[i]
+		enc := append([]byte{}, encs[i]...) // working copy, modified in place and restored
 		full := len(enc) <= fullLimit
+		designated := c07HeavyDesignated(sh.Name)
 		isMark := map[int]bool{}
 		for _, m := range marks[i] {
 			isMark[m] = true
 			isMark[m+1] = true // truncation just after a structural byte
 		}
-		var ev, okSame, okOther, rejected int64
+		var ev, okSame, okOther, rejected, heavyRun, heavySkipped int64
 		classes := c07Classes{}
 		defer classes.flush(r)
 		task := mon.begin(sh.Name, c07Unpack)
 		defer mon.end(task)
 		try := func(kind string, pos int, val byte, data []byte) {
 			task.at(c07Pack(kind, pos, val))
+			if ref.C07MaxDeclaredLen(data) > heavyFrom {
+				if !designated {
+					heavySkipped++
+					return
+				}
+				heavyRun++
+				heavyMu.Lock()
+				defer func() {
+					debug.FreeOSMemory()
+					heavyMu.Unlock()
+				}()
+			}
 			res := c07Decode(bytes.NewReader(data))
 			ev++
 			switch {
@@ -448,28 +470,51 @@ func TestVerif_C07_codec(t *testing.T) {
 				}
 			}
 		}
-		verifmc.Deviate(enc, true, func(d verifmc.Deviation) {
-			if !full && !isMark[d.Pos] {
-				return
+		for l := 0; l < len(enc); l++ {
+			if full || isMark[l] {
+				try("trunc", l, 0, enc[:l])
 			}
-			try(d.Kind, d.Pos, d.Val, d.Data)
-		})
+		}
+		for pos := range enc {
+			if !full && !isMark[pos] {
+				continue
+			}
+			orig := enc[pos]
+			for v := 0; v < 256; v++ {
+				if byte(v) == orig {
+					continue
+				}
+				enc[pos] = byte(v)
+				try("subst", pos, byte(v), enc)
+			}
+			enc[pos] = orig
+		}
+		for _, v := range []byte{0x00, 0x01, 0xff} {
+			try("append", len(enc), v, append(append([]byte{}, enc...), v))
+		}
 		r.Add("evaluations", ev)
 		r.Add("deviation_inputs", ev)
 		r.Add("deviation_decoded_equivalent", okSame)
 		r.Add("deviation_decoded_other_node", okOther)
 		r.Add("deviation_rejected", rejected)
+		r.Add("deviation_alloc_heavy_executed", heavyRun)
+		r.Add("deviation_alloc_heavy_skipped", heavySkipped)
 		if okSame > 0 {
 			classes.add("deviation:decodes-to-the-same-node(ignored byte)")
 		}
 		if okOther > 0 {
 			classes.add("deviation:decodes-to-another-node")
 		}
+		if heavySkipped > 0 {
+			classes.add("deviation:declares-more-than-16MiB(skipped,counted)")
+		}
 		// unfriendly readers: only panic / hang are demanded; the result classes are counted
 		var rev int64
 		reader := func(name string, rd io.Reader, pos int) {
 			task.at(c07Pack(name, pos, 0))
+			readerSem <- struct{}{} // a short read shifts the stream: declared lengths are unpredictable
 			res := c07Decode(rd)
+			<-readerSem
 			rev++
 			switch {
 			case res.panicked:
@@ -497,6 +542,19 @@ func TestVerif_C07_codec(t *testing.T) {
 	r.Extra["max_bytes_len"] = maxLen
 	r.Extra["full_neighbourhood_up_to_bytes"] = fullLimit
 	r.Extra["shapes"] = len(shapes)
+}
+
+// c07HeavyDesignated: the shapes whose allocation-heavy deviations are executed (one at a time).
+func c07HeavyDesignated(name string) bool {
+	quick := map[string]bool{
+		"leaf pk=1 v=01": true, "leaf pk=1 v=33inline": true,
+		"branch pk=1 v=none c0=hashed": true, "branch pk=1 v=33inline c0=inline": true,
+	}
+	if quick[name] {
+		return true
+	}
+	return verifmc.Thorough() && strings.Contains(name, " pk=1 ") &&
+		(!strings.HasPrefix(name, "branch") || strings.HasSuffix(name, " c0=inline") || strings.HasSuffix(name, " c0=hashed"))
 }
 
 func c07Replay(b []byte) string {
